@@ -187,6 +187,37 @@ func instrument(in, out, shimPath string, enter bool) (nfunc, nsync, ngo int) {
 		}
 		return true
 	})
+	// runtime.SetFinalizer -> the shim's SetFinalizer (finalizers are run by the
+	// simulator, never on the runtime's finalizer goroutine)
+	runtimeName := ""
+	for _, imp := range f.Imports {
+		if p, _ := strconv.Unquote(imp.Path.Value); p == "runtime" {
+			runtimeName = "runtime"
+			if imp.Name != nil {
+				runtimeName = imp.Name.Name
+			}
+		}
+	}
+	nfin := 0
+	if runtimeName != "" && runtimeName != "_" && runtimeName != "." {
+		ast.Inspect(f, func(n ast.Node) bool {
+			if c, ok := n.(*ast.CallExpr); ok {
+				if sel, ok := c.Fun.(*ast.SelectorExpr); ok && sel.Sel.Name == "SetFinalizer" {
+					if id, ok := sel.X.(*ast.Ident); ok && id.Name == runtimeName {
+						edits = append(edits, edit{off(sel.Pos()), off(sel.End()) - off(sel.Pos()), "verifsyncfin__.SetFinalizer"})
+						nfin++
+					}
+				}
+			}
+			return true
+		})
+		if nfin > 0 {
+			// keep the runtime import used; import the shim under a name of its own
+			edits = append(edits, edit{off(f.Name.End()), 0, "; import verifsyncfin__ " + strconv.Quote(shimPath)})
+			edits = append(edits, edit{len(src), 0, "\nvar _ = " + runtimeName + ".NumCPU\n"})
+			fmt.Fprintf(os.Stderr, "xpinstr: %d runtime.SetFinalizer call(s) in %s redirected to the simulator\n", nfin, filepath.Base(in))
+		}
+	}
 	if enter {
 		for _, d := range f.Decls {
 			fd, ok := d.(*ast.FuncDecl)
